@@ -148,7 +148,7 @@ impl Prop for C12 {
             any::<u8>().prop_map(PMut::DupBlock),
         ];
         (
-            prop_oneof![240 => graph_strategy(&ALL_KINDS, 1, 10, me, &[0, 1, 1, 6], 3), 20 => graph_strategy(&ALL_KINDS, 11, 25, me, &[0, 1], 3), 1 => boundary_graph_strategy(&ALL_KINDS, me, &[0, 1], 3, 255)],
+            prop_oneof![240 => graph_strategy(&ALL_KINDS, 1, 10, me, &[0, 1, 1, 6, 8], 3), 20 => graph_strategy(&ALL_KINDS, 11, 25, me, &[0, 1], 3), 1 => boundary_graph_strategy(&ALL_KINDS, me, &[0, 1], 3, 255)],
             any::<u8>(),
             vec(any::<u8>(), 255),
             prop_oneof![4 => Just(0u8), 1 => 1u8..3],
